@@ -1,6 +1,6 @@
 from . import session
 
-FAMILIES = [('loss', 1.0), ('specack', 0.5), ('mix', 0.3), ('lockstep', 0.3)]
+FAMILIES = [('loss', 1.0), ('specack', 0.5), ('mix', 0.3), ('lockstep', 0.3), ('hsloss', 0.3)]
 
 def main(ctx):
     session.run(ctx, "C05", FAMILIES, quick_count=100, thorough_count=4000, prop_mod=session.PROP_MODS.get("C05"))
